@@ -24,8 +24,12 @@ RULE = ("correspondence: one driver line per history (run/member), per ChainFind
         "predicate evaluation (excluded) and per spec weight (best_weight); distinct = distinct line; non-trivial = "
         "the model returns a value that does not start with '!'")
 PARTIAL = [
-    "C15_statement is refuted on the current tree (three defect families, see known/C15.txt); the proved part is "
-    "restricted by the executable exclusion predicate Spec.ChainSpec.excluded",
+    "C15_statement is refuted on the current tree (three defect families, see known/C15.txt); C15_partial proves it "
+    "for every history on which the executable exclusion predicate Spec.ChainSpec.excluded returns None",
+    "ops replay and index-map agreement are not unconditional (refuted by the lock-with-tie witness); they are proved "
+    "under the same exclusion",
+    "preload_locked_blocks, negative indices of tuple_for_index, unlocked_block_storage and did_lock_to_index_f are "
+    "not modelled; change callbacks are only checked directly (they receive the returned ops list)",
 ]
 TRUSTED = [
     "Python dict/set modelled as association lists / duplicate-free lists; set.pop() and set iteration order as "
@@ -587,7 +591,7 @@ def _hists(rng, tier):
     nmax = 4 if tier == "quick" else 5
     for h in exhaustive_hists(rng, nmax):
         yield h, None
-    nrand = 1500 if tier == "quick" else 40000
+    nrand = 4000 if tier == "quick" else 40000
     for i in range(nrand):
         h = random_hist(rng, rng.choice([6, 10, 20, 40]), tiefree=(rng.random() < 0.3))
         if i % 3 == 0 and small_batches(h):
@@ -627,7 +631,7 @@ def model_cases(rng, tier):
             continue
         pr = rand_prios(rng, h)
         yield case_spy(h, pr)
-    for _ in range(600 if tier == "quick" else 15000):
+    for _ in range(1500 if tier == "quick" else 15000):
         yield case_load(rng, rng.choice([5, 10, 25]))
 
 
